@@ -1,6 +1,6 @@
 (* C18 — server discovery: source -> optional regex filter -> dedup -> shuffle.
    Executable definitions only (internal/discovery/{discovery,comma,file}.go). *)
-From DT Require Import Lib.Bytes.
+From DT Require Import Lib.Bytes Lib.Split.
 From Coq Require Import Sorting.Mergesort Orders.
 
 Section Generic.
@@ -52,12 +52,6 @@ End Generic.
 
 (* ---- the two built-in sources, over bytes ---- *)
 
-(* strings.Split(s, ","): always at least one element *)
-Fixpoint split_on (sep : byte) (cur : bytes) (s : bytes) : list bytes :=
-  match s with
-  | [] => [rev' cur]
-  | c :: r => if beqb c sep then rev' cur :: split_on sep [] r else split_on sep (c :: cur) r
-  end.
 Definition comma_split (s : bytes) : list bytes := split_on x2c [] s.
 
 (* bufio.Scanner with ScanLines: split at \n, drop one trailing \r per line, a final line
